@@ -119,7 +119,7 @@ fn pick_target(rng: &mut Rng, r: &Reference, pos: usize, cur: DocId, max_doc: u3
             t as DocId
         }
     };
-    match rng.below(20) {
+    match rng.below(23) {
         0..=6 => {
             // around a member, mostly a near one
             let rem = r.len() - pos;
@@ -144,6 +144,15 @@ fn pick_target(rng: &mut Rng, r: &Reference, pos: usize, cur: DocId, max_doc: u3
         13 => clip(max_doc as i64 + rng.irange(-2, 1)),
         14 => TERMINATED,
         15 => cur,
+        16 | 17 => {
+            // shortly before the end of a 4096-document union window (windows start at the first
+            // member, later ones wherever the previous one ran out): a run of advances from there
+            // crosses into the next window
+            let base = r.first().map(|e| e.0 as i64).unwrap_or(0);
+            let j = ((cur as i64 - base).max(0) / 4096) + 1;
+            clip(base + j * 4096 - rng.irange(1, 150))
+        }
+        18 => clip(cur as i64 + rng.irange(100, 3900)),
         _ => clip(rng.irange(cur as i64, max_doc as i64 + 1)),
     }
 }
@@ -249,7 +258,9 @@ fn run_program(
     let mut p = Prog { r, pos: 0, ops: vec![], kinds: BTreeSet::new(), between: false, last: "new", fill_seen: false, danger_seen: false, fill_before: false, danger_before: false, rounding_diffs: 0, last_danger: None };
     p.check_here(sc, rng, scored)?;
     let len = rng.urange(3, 40);
-    let style = rng.below(6); // 0: seek-heavy 1: fill-heavy 2: danger-heavy  else mixed
+    // 0: seek-heavy 1: fill-heavy 2: danger-heavy 6: advance/seek only with long advance runs
+    // (walks across union windows; no fill_buffer / seek_danger, so nothing is tagged)  else mixed
+    let style = rng.below(7);
     let mut i = 0;
     while i < len {
         i += 1;
@@ -258,6 +269,7 @@ fn run_program(
             0 => [10, 60, 3, 3, 8, 1, 1, 2],
             1 => [10, 15, 30, 30, 5, 1, 1, 2],
             2 => [10, 15, 3, 3, 60, 1, 1, 2],
+            6 => [45, 50, 0, 0, 0, 0, 0, 5],
             _ => [25, 30, 8, 8, 9, 2, 1, 2],
         };
         let op = match rng.weighted(&w) {
@@ -294,20 +306,28 @@ fn run_program(
         p.kinds.insert(op.kind());
         match op {
             Op::Advance => {
-                p.ops.push(op.json());
-                p.begin("advance");
-                let ret = sc.advance();
-                if p.pos < r.len() {
-                    p.pos += 1;
+                // sometimes a long run: it walks through block and window boundaries
+                let run = if rng.chance(if style == 6 { 1 } else { 0 }, 2) || rng.chance(1, 8) { rng.urange(10, 220) } else { 1 };
+                p.ops.push(if run == 1 { op.json() } else { json!({"advance_times": run}) });
+                for _ in 0..run {
+                    let cur = p.cur();
+                    p.begin("advance");
+                    let ret = sc.advance();
+                    if p.pos < r.len() {
+                        p.pos += 1;
+                    }
+                    p.last = "advance";
+                    if ret != p.cur() {
+                        return Err(p.fail(
+                            if cur == TERMINATED { "terminated-not-sticky[advance]".to_string() } else { "advance:unexpected-document".to_string() },
+                            json!({"returned": ret, "expected": p.cur(), "from": cur}),
+                        ));
+                    }
+                    p.check_here(sc, rng, scored)?;
+                    if p.cur() == TERMINATED {
+                        break;
+                    }
                 }
-                p.last = "advance";
-                if ret != p.cur() {
-                    return Err(p.fail(
-                        if cur == TERMINATED { "terminated-not-sticky[advance]".to_string() } else { "advance:unexpected-document".to_string() },
-                        json!({"returned": ret, "expected": p.cur(), "from": cur}),
-                    ));
-                }
-                p.check_here(sc, rng, scored)?;
             }
             Op::Seek(t) => {
                 p.ops.push(op.json());
@@ -918,6 +938,7 @@ fn main() {
         &[
             "legal programs only: seek targets >= doc(); on a terminated docset only seek(TERMINATED); fill_bitset_block only on a non-terminated docset with min_doc >= doc(); seek_danger targets strictly increasing and >= the previous lower bound, after a non-Found result only seek_danger until Found (else the program ends); count* ends the program",
             "seek_danger with a first target below doc() (but above the previous member) is generated in 1/8 of the chains because tantivy itself calls it that way (Exclude::new, BufferedUnionScorer::seek_danger forwarding); such findings carry the tag [target-below-doc]",
+            "signature = [structure]problem[reached-by=<call>][fill_buffer-earlier][seek_danger-earlier][seek_danger-internal]: the -earlier tags say that such a call was issued on this scorer before the failing call; seek_danger-internal marks a union with a phrase / phrase-prefix / intersection leg below a conjunction or exclusion, which drives it through seek_danger by itself",
             "SeekDangerResult is not re-exported: it is read through its Debug rendering; BLOCK_NUM_TINYBITSETS = 16 is hard-coded",
             "a score that differs from the reference by <= 1e-6 relative (summation order inside score combiners) is counted, not reported",
             "size_hint() and cost() are called but not checked",
